@@ -11,3 +11,10 @@ pub mod schema;
 
 #[global_allocator]
 static ALLOC: guard::CountingAlloc = guard::CountingAlloc;
+
+/// Root of the aldrin checkout the checks read files from (schemas, Cargo.lock, path of the
+/// generated-code corpus' dependency). `/repo` unless `VERIF_REPO` says otherwise; the parallel
+/// seeded-change matrix (`tools/seed_matrix_par.sh`) points it at a scratch worktree.
+pub fn repo_root() -> String {
+    std::env::var("VERIF_REPO").unwrap_or_else(|_| "/repo".into())
+}
